@@ -570,7 +570,7 @@ Section KeyRuns.
     split; [apply group_runs_length|]. split; [apply group_runs_dsum|]. intros i. apply group_runs_nth.
   Qed.
 
-  (* tying is idempotent on leaves: a second pass finds nothing to merge *)
+  (* tie_by on a sequence of leaves is exactly the grouping of its runs *)
   Corollary tie_list_seq_leaves rm m ls : all_leaves ls ->
     tie_by key_cond rm (Seq m ls) = Seq m (group_runs rm ls).
   Proof.
